@@ -644,6 +644,10 @@ def subst_params(t, mapping, tag=None):
     `tag`: call-site block numbers inside the substituted (callee) term are rewritten to f"{tag}#bb{n}" so that they
     can never be confused with block numbers of the caller."""
     if isinstance(t, tuple):
+        if not t:
+            return t
+        if not isinstance(t[0], str):
+            return tuple(subst_params(x, mapping, tag) for x in t)
         if t and t[0] == "param" and len(t) >= 2 and t[1] in mapping:
             return mapping[t[1]]
         if t and t[0] == "call" and len(t) >= 4 and tag is not None and isinstance(t[3], int):
